@@ -178,7 +178,8 @@ static RunPlan gen_sched_family(uint64_t seed, int tier)
 	p.family = "sched";
 	p.seed = seed;
 	p.cfg = gen_config(rng, 6, 6, true);
-	p.cfg.autosave_at = 0;
+	// an autosave in the middle of a sync stops and restarts the worker threads: one more hand-over to get right
+	p.cfg.autosave_at = rng.chance(1, 4) ? (int)rng.range(1, 8) : 0;
 	for (auto& o : gen_populate(rng, p.cfg, 1, 6)) p.ops.push_back(o);
 	int kind = (int)rng.below(10);
 	bool have_base = kind >= 3;
